@@ -246,6 +246,34 @@ func checkNonceRegister(c *core.Ctx, rule string) {
 		}
 		c.Check(ok, rule, "Accounts.GetNonce", fn.Pos(), "GetNonce(address) returns the Nonce field of the account at `address`", "GetNonce does not return the Nonce field of the addressed account")
 	}
+	// permanence: the account record (which holds the nonce) is never removed — not from the
+	// tree (only per-coin balance records are) and not from the in-memory table. A pruned account
+	// comes back with nonce 0 when it is funded again, and its old signed transactions replay.
+	accT := c.Named(core.PkgState+"/accounts", "Accounts")
+	balPrefix, okP := constOf(c, core.PkgState+"/accounts", "balancePrefix")
+	nRem := 0
+	for _, fn := range c.SrcFuncs(core.PkgState + "/accounts") {
+		for _, s := range core.Sites(fn) {
+			if !strings.HasSuffix(s.Callee, "iavl.MutableTree).Remove") {
+				continue
+			}
+			nRem++
+			isBalance := okP && core.DependsOn(s.Arg(0), func(v ssa.Value) bool {
+				k, ok := core.ConstInt(v)
+				return ok && k == balPrefix
+			})
+			c.Check(isBalance, rule, "no-account-removal/"+core.ShortFn(fn), s.Pos(), "the only records removed from the tree are per-coin balance records (key contains balancePrefix)", "the accounts module removes a record other than a per-coin balance from the tree: deleting the account record forgets the nonce, and every transaction the account ever signed becomes valid again once it is re-created")
+		}
+	}
+	if accT != nil {
+		for _, a := range mapFieldAccesses(c, accT, "list") {
+			if a.Kind == "delete" {
+				nRem++
+				c.Bad(rule, "no-account-removal/"+core.ShortFn(a.Fn)+"/list", a.Instr.Pos(), "an account is dropped from the in-memory table: its nonce is forgotten")
+			}
+		}
+	}
+	c.Floor(rule+".removals", nRem, 1, "tree removals in the accounts module (the zero-balance removal must be seen)")
 	// the read-only interface method used by the gate resolves to this implementation
 	mods := Modules(c)
 	found := false
